@@ -60,6 +60,11 @@ def handleCrash (s : KSt) (line : String) : KSt :=
     { s with store := s.store.filter (· != a) }
   | ["R", _, a, _, state, heads, pf] =>
     { s with rets := s.rets.insert a (parseList state, parseList heads, pf == "1") }
+  | ["LF", a, diffs, joinRes] =>
+    -- the loaded entries equal, field by field, the entries `Append` returned, and a peer can merge the
+    -- loaded log ("loads to exactly the log state at the moment it was produced")
+    let s := s.spec "loadedIdentical" (diffs == "-") s!"{a}: {diffs}"
+    s.spec "loadedMergeable" (joinRes == "ok") s!"{a}: a peer's Join of the loaded log: {joinRes}"
   | ["L", kind, a, upto, res, ents, heads] =>
     match s.rets[a]? with
     | none => s
